@@ -166,6 +166,8 @@ enum Ev {
     Reply(u64),
     ReplyDup(u64),
     ReplyUnknown(u64),
+    /// an unsolicited reply bearing the id the client will hand out NEXT (ids are sequential)
+    ReplyFuture(u64),
     PeerEof,
     PeerErr,
     Abandon(usize),
@@ -187,6 +189,7 @@ struct St {
     replied: BTreeMap<u64, u32>,
     dup_sent: BTreeSet<u64>,
     unknown_sent: [bool; 5],
+    future_sent: bool,
     eof_sent: bool,
     err_sent: bool,
     park_depth: u32,
@@ -315,6 +318,7 @@ impl World {
             replied: BTreeMap::new(),
             dup_sent: BTreeSet::new(),
             unknown_sent: [false; 5],
+            future_sent: false,
             eof_sent: false,
             err_sent: false,
             park_depth: 0,
@@ -450,6 +454,12 @@ impl World {
                         }
                     }
                 }
+                // a frame for an id that has not been handed out yet, while some caller has still to
+                // make its call (every started caller took exactly one id, in the order of first polls)
+                if self.has(A_UNKNOWN) && !st.future_sent && st.callers.iter().any(|c| c.fut.is_some() && c.polls == 0) {
+                    let issued = st.callers.iter().filter(|c| c.polls > 0).count() as u64;
+                    m.push(Ev::ReplyFuture(issued));
+                }
                 if self.has(A_EOF) {
                     m.push(Ev::PeerEof);
                 }
@@ -557,7 +567,7 @@ impl World {
                     let mut st = self.st.borrow_mut();
                     let c = &mut st.callers[i];
                     c.flag.clear();
-                    (c.fut.take().unwrap(), c.waker.clone())
+                    (c.fut.take().unwrap(), c.flag.fresh_waker())
                 };
                 if self.has(A_PARKPOLL) {
                     self.st.borrow_mut().park_armed = true;
@@ -620,7 +630,7 @@ impl World {
                 let (mut d, waker) = {
                     let mut st = self.st.borrow_mut();
                     st.dflag.clear();
-                    (st.dispatch.take().unwrap(), st.dwaker.clone())
+                    (st.dispatch.take().unwrap(), st.dflag.fresh_waker())
                 };
                 let prev = self.log.begin_poll(Task::Dispatch(0));
                 let mut cx = Context::from_waker(&waker);
@@ -663,6 +673,17 @@ impl World {
                         std::mem::forget(d);
                     }
                 }
+            }
+            Ev::ReplyFuture(id) => {
+                let tok = {
+                    let mut st = self.st.borrow_mut();
+                    st.future_sent = true;
+                    let tok = st.next_tok;
+                    st.next_tok += 1;
+                    tok
+                };
+                self.log.push(Rec::N("future_reply", vec![id as i128, tok as i128, 0]));
+                self.core.borrow_mut().push_in(InItem::Item(Response { request_id: id, message: Ok(tok) }));
             }
             Ev::Reply(id) | Ev::ReplyDup(id) | Ev::ReplyUnknown(id) => {
                 let (tok, is_err, stray) = {
@@ -736,6 +757,7 @@ impl World {
                 }
             }
             Ev::PeerEof => {
+                self.log.push(Rec::N("peer_eof", vec![]));
                 self.st.borrow_mut().eof_sent = true;
                 self.core.borrow_mut().push_in(InItem::Eof);
             }
@@ -1056,8 +1078,12 @@ pub struct Facts {
     pub q1c: BTreeMap<usize, (i128, i128)>,
     pub q2c: BTreeMap<usize, (i128, i128)>,
     pub eof_read: Option<usize>,
+    /// the peer ended the read side (whether or not the dispatch has looked)
+    pub eof_sent: Option<usize>,
     pub parks: u32,
     pub strays: u32,
+    /// unsolicited replies for ids not yet handed out: (rec idx, id, tok)
+    pub future: Vec<(usize, u64, u32)>,
 }
 
 pub fn facts(recs: &[Rec]) -> Facts {
@@ -1102,6 +1128,11 @@ pub fn facts(recs: &[Rec]) -> Facts {
                 f.strays += 1;
                 f.replies.push((i, v[0] as u64, v[1] as u32, v[2] != 0, true))
             }
+            Rec::N("future_reply", v) => {
+                f.future.push((i, v[0] as u64, v[1] as u32));
+                f.replies.push((i, v[0] as u64, v[1] as u32, false, false))
+            }
+            Rec::N("peer_eof", _) => f.eof_sent = Some(i),
             Rec::N("stray_suppressed", _) => f.strays += 1,
             Rec::S("caller_done", s) => {
                 let (a, b) = s.split_once(' ').unwrap();
